@@ -38,7 +38,7 @@ func v1app(n *consensus.Network, h uint64) bool { return h < n.HardforkV2.Requir
 func v2app(n *consensus.Network, h uint64) bool { return h >= n.HardforkV2.AllowHeight }
 
 func run(c *vf.Ctx) {
-	c.Set("rule", "explicit-state DFS over the union alphabet; at every distinct state, for one canonical live element of every kind (v1-address SC, v2-address SC, in-block ephemeral output, SF, v1 contract, v2 contract) every ordered pair (first use, second use) of applicable uses x every placement {same transaction, later transaction of the same block, next block with stale proof, next block with proof maintained through the update, after a reorg that re-applies the first use}; oracle: attack block rejected, control blocks (each use alone) accepted; a case is distinct per (network, height, element kind, first use, second use, placement)")
+	c.Set("rule", "explicit-state DFS over the union alphabet; at every distinct state, for one canonical live element of every kind (v1-address SC, v2-address SC, in-block ephemeral output, SF, v1 contract, v2 contract) every ordered pair (first use, second use) of applicable uses x every placement {same transaction, later transaction of the same block, later transaction of the same block after an in-block revision of the contract, next block with stale proof, next block with proof maintained through the update, after a reorg that re-applies the first use}; oracle: attack block rejected, control blocks (each use alone) accepted; a case is distinct per (network, height, element kind, first use, second use, placement)")
 	nets := []string{"v1-eras", "mixed", "v2-only"}
 	if !c.Quick() {
 		nets = append(nets, "v2-eph5", "v1-mid")
@@ -60,7 +60,7 @@ func run(c *vf.Ctx) {
 		x.Run()
 		x.Report(n + "/")
 	}
-	c.RequireFeature("attack_rejected", "control_accepted", "attack:same-block", "attack:same-tx", "attack:next-block-stale", "attack:next-block-updated", "attack:reorg",
+	c.RequireFeature("attack_rejected", "control_accepted", "attack:same-block", "attack:same-block-after-revision", "attack:same-tx", "attack:next-block-stale", "attack:next-block-updated", "attack:reorg",
 		"kind:sc-v1addr", "kind:sc-v2addr", "kind:sc-nosig", "kind:sf-nosig", "kind:sf", "kind:fc", "kind:v2fc", "kind:ephemeral")
 	c.Assume("every attack block is built by the harness' own builder: correct parent, timestamp, commitment/Merkle root, miner payout and nonce; the control experiment (same block without the second use) must be accepted, so an attack cannot be rejected merely for being badly sealed")
 }
@@ -204,6 +204,27 @@ func attacks(c *vf.Ctx, x *chain.Explorer, w *chain.World, path []string) {
 				continue
 			}
 			c.Count("control_accepted", 1)
+			// contracts: the same first use preceded by a revision of the contract in an earlier transaction of the block
+			// (the in-block bookkeeping of a revised-then-resolved contract is a separate code path); used only if the
+			// block [revision, first use] is itself accepted.
+			var ur *chain.Use
+			if t.kind == "fc" || t.kind == "v2fc" {
+				for _, gr := range t.uses {
+					if resolves(gr.name) || !gr.app(w.Net, h) {
+						continue
+					}
+					if u, ok := gr.gen(w, 1); ok {
+						bp, bsp := w.BlockOfUses(u, u1)
+						if ok, _ := accept(x, w, bp, bsp); ok {
+							ur = &u
+							c.Count("control_accepted_after_revision", 1)
+						} else {
+							c.Count("revision_prefix_not_applicable", 1)
+						}
+					}
+					break
+				}
+			}
 			for _, g2 := range t.uses {
 				sameBlockOK := g2.app(w.Net, h)
 				nextBlockOK := g2.app(w.Net, h+1)
@@ -249,6 +270,10 @@ func attacks(c *vf.Ctx, x *chain.Explorer, w *chain.World, path []string) {
 					// (a) same transaction
 					if m, ok := merge(w, u1, u2); ok {
 						try("same-tx", w, m)
+					}
+					// (b') revision, first use, second use in three transactions of one block
+					if ur != nil {
+						try("same-block-after-revision", w, *ur, u1, u2)
 					}
 				}
 				if !nextBlockOK {
